@@ -27,6 +27,9 @@ type Engine struct {
 	writeSets map[*ssa.Function]map[string]bool
 	loadSecs  float64
 	nonNilGlobals map[string]bool
+	initOnly map[string]bool
+	constInit map[string]*ssa.Const
+	constInitN map[string]int
 }
 
 func loadEngine(repo string, patterns []string, extraContractFiles []string) (*Engine, error) {
@@ -281,7 +284,9 @@ func (e *Engine) globalNonNil() map[string]bool {
 				if !ok {
 					continue
 				}
-				if _, isIface := gv.Type().Underlying().(*types.Interface); !isIface {
+				switch gv.Type().Underlying().(type) {
+				case *types.Interface, *types.Map, *types.Chan, *types.Pointer:
+				default:
 					continue
 				}
 				r := globalRegion(gv)
@@ -305,7 +310,7 @@ func (e *Engine) globalNonNil() map[string]bool {
 					} else {
 						good = false
 					}
-				case *ssa.MakeInterface:
+				case *ssa.MakeInterface, *ssa.MakeMap, *ssa.MakeChan, *ssa.Alloc:
 				default:
 					good = false
 				}
@@ -322,4 +327,64 @@ func (e *Engine) globalNonNil() map[string]bool {
 		}
 	}
 	return e.nonNilGlobals
+}
+
+// initOnlyGlobals: package-level variables that are stored to only inside
+// package initialisers (whole-program scan of the loaded SSA): their value never
+// changes after init, so calls - also unknown ones - cannot modify them.
+func (e *Engine) initOnlyGlobals() map[string]bool {
+	if e.initOnly != nil {
+		return e.initOnly
+	}
+	written := map[string]bool{}
+	all := map[string]bool{}
+	for fn := range ssautil.AllFunctions(e.prog) {
+		inInit := fn.Synthetic != "" && fn.Name() == "init"
+		for _, b := range fn.Blocks {
+			for _, ins := range b.Instrs {
+				// any use of the global's address other than load/store (escapes) counts as a write
+				for _, op := range ins.Operands(nil) {
+					g, ok := (*op).(*ssa.Global)
+					if !ok {
+						continue
+					}
+					gv, ok := g.Object().(*types.Var)
+					if !ok {
+						continue
+					}
+					r := globalRegion(gv)
+					all[r] = true
+					switch x := ins.(type) {
+					case *ssa.UnOp:
+						continue // load
+					case *ssa.Store:
+						if x.Addr == g && x.Val != g && inInit {
+							if c, ok := x.Val.(*ssa.Const); ok && c.Value != nil {
+								if e.constInit == nil {
+									e.constInit = map[string]*ssa.Const{}
+									e.constInitN = map[string]int{}
+								}
+								e.constInit[r] = c
+							}
+							if e.constInitN == nil {
+								e.constInitN = map[string]int{}
+							}
+							e.constInitN[r]++
+							continue
+						}
+					case *ssa.DebugRef:
+						continue
+					}
+					written[r] = true
+				}
+			}
+		}
+	}
+	e.initOnly = map[string]bool{}
+	for r := range all {
+		if !written[r] {
+			e.initOnly[r] = true
+		}
+	}
+	return e.initOnly
 }
